@@ -18,7 +18,8 @@ CONF = dict(
  'on (NotBefore, NotAfter, t) triples at the edges, and one source check of the lock discipline. Non-trivial: a history with at least one rotation and at least '
  'one Get of a key that Current had handed out (tags b24/b48/b72/exp/gap/weird count the boundary hits); IsValidAt within 1 ns of an edge; distinct = distinct '
  '(kind, input)'),
-    assumptions=['non-decreasing clock readings (the monotone clock the property names); time.Time modelled as unbounded nanoseconds, Add exact, Before/After = < / >',
+    assumptions=['validity is judged on the monotonic clock: time.Time is modelled as one number, which is faithful only while every time the provider compares is a time.Now() reading moved by Add (time.Now() carries a monotonic reading, so wall-clock steps - this daemon steps the clock itself - do not move key lifetimes); enforced on the code by the source rule monotonic-reading-preserved (no Round/Truncate/UTC/In/AddDate/Unix round trips/time.Date in provider.go and the methods of Provider and Key) and observed on every returned key (its Validity times still carry the monotonic reading)',
+ 'non-decreasing clock readings (the monotone clock the property names); time.Time modelled as unbounded nanoseconds, Add exact, Before/After = < / >',
  'a call that does not generate a key reads the clock once (as the code does); its unread second reading is taken equal to the first',
  'no-panic theorem: history shorter than 2^63 - 2 days (panic("ID overflow") needs 2^63 - 1 rotations, each more than 24 h after the previous)',
  'crypto/rand.Read modelled as a tape: the k-th generated key carries value k (the harness installs such a tape as crypto/rand.Reader)'],
@@ -37,9 +38,9 @@ CONF = dict(
  'any number of goroutines through the lock: handed-out key valid now, generated <= 24 h ago, valid 3 days; Get only while valid and only generated keys; ids '
  'strictly increasing; a handed-out key is returned unchanged by Get for 2 more days and never later than 3 days after generation. The model is tied to '
  "net/ntske/provider.go by running both on boundary-dense multi-day histories every run; the property oracle is evaluated on the implementation's observations"),
-    level_note=('Trusted: Coq kernel, hand-written model validated by the correspondence run, extraction, harness, synctest. No axioms (all theorems closed under the global '
+    level_note=('Validity follows the monotonic clock (assumption 1, checked syntactically and on every observed key; a wall-clock step itself is not exercised). Trusted: Coq kernel, hand-written model validated by the correspondence run, extraction, harness, synctest. No axioms (all theorems closed under the global '
  'context). Observation: cookies carry the key id in 16 bits (core/server passes int(uint16) to Get); by C12_rotation_rate ids stay below 2^16 for 65535 days '
- 'of uptime.'),
+ 'of uptime (theorem C12_ids_fit_16_bits); beyond that no cookie could be used at all (int(uint16 id) at server_ip.go / server_scion.go).'),
     explanation=('prov.hist: functional (model history = observed (id, value, NotBefore, NotAfter, ok) of every call). prov.conc: relational (group acceptance: calls of one '
  'virtual instant may have taken the lock in any order). prov.valid: functional. prov.lock: source check that Provider methods hold p.mu. Oracle C12_ok on every '
  'history: Current key valid now / <= 24 h old / 3-day validity; Get ok => the id asked for, valid now; same id => same key, later generation => larger id, '
